@@ -243,6 +243,10 @@ type Cfg struct {
 	// NumCPU is what runtime.NumCPU() / GOMAXPROCS(0) report to the library
 	// (0: 4): a pure test may not depend on it
 	NumCPU int `json:"num_cpu,omitempty"`
+	// Fresh: the run happens in a process of its own that has not touched the
+	// library before (lazily built tables, once-initialised state are in the
+	// condition the very first concurrent users of a process find them in)
+	Fresh bool `json:"fresh,omitempty"`
 }
 
 // InputSpec describes an input.
@@ -347,6 +351,86 @@ type Outcome struct {
 	Sim        simctl.Result
 	Mismatches []Mismatch
 	Calls      int
+}
+
+// FreshRequest is what a fresh child process is asked to run: one
+// configuration, with the solitary reference results it needs.
+type FreshRequest struct {
+	Cfg  Cfg            `json:"cfg"`
+	Solo map[string]Res `json:"solo"`
+	Out  string         `json:"out"`
+}
+
+// ExecuteFresh runs c under the simulator in a fresh child process.
+func ExecuteFresh(t *testing.T, c *Cfg) *Outcome {
+	req := FreshRequest{Cfg: *c, Solo: map[string]Res{}}
+	req.Cfg.Fresh = false
+	for _, steps := range c.Tasks {
+		for _, s := range steps {
+			req.Solo[soloKey(s.Call, c.Inputs[s.Input])] = Solo(s.Call, c.Inputs[s.Input])
+		}
+	}
+	f, err := os.CreateTemp(".", "fresh-*.json")
+	if err != nil {
+		t.Fatal(err)
+	}
+	reqPath, _ := filepath.Abs(f.Name())
+	req.Out = reqPath + ".out"
+	b, _ := json.Marshal(req)
+	f.Write(b)
+	f.Close()
+	defer os.Remove(reqPath)
+	defer os.Remove(req.Out)
+	cmd := exec.Command(os.Args[0], "-test.run", "TestFreshChild", "-test.timeout", "30m")
+	cmd.Env = append(os.Environ(), "VERIF_FRESH_REQ="+reqPath, "VERIF_JOB=", "VERIF_REF_DIR=", "VERIF_REF_REQ=")
+	outb, err := cmd.CombinedOutput()
+	ob, rerr := os.ReadFile(req.Out)
+	var o Outcome
+	if rerr != nil || json.Unmarshal(ob, &o) != nil {
+		msg := string(outb)
+		if i := indexOf(msg, "panic:"); i >= 0 {
+			msg = msg[i:]
+		} else if i := indexOf(msg, "fatal error:"); i >= 0 {
+			msg = msg[i:]
+		}
+		if len(msg) > 1200 {
+			msg = msg[:1200]
+		}
+		if err == nil || indexOf(string(outb), "SIMCTL WATCHDOG") >= 0 {
+			t.Fatalf("fresh child gave no result: %v\n%s", err, msg)
+		}
+		return &Outcome{Mismatches: []Mismatch{{"process-crash", fmt.Sprintf("a fresh process running this case died: %v: %s", err, msg)}}}
+	}
+	return &o
+}
+
+func indexOf(s, sub string) int {
+	for i := 0; i+len(sub) <= len(s); i++ {
+		if s[i:i+len(sub)] == sub {
+			return i
+		}
+	}
+	return -1
+}
+
+// FreshChildMain is the body of a fresh child process.
+func FreshChildMain(t *testing.T, reqPath string) error {
+	b, err := os.ReadFile(reqPath)
+	if err != nil {
+		return err
+	}
+	var req FreshRequest
+	if err := json.Unmarshal(b, &req); err != nil {
+		return err
+	}
+	solo.Lock()
+	for k, v := range req.Solo {
+		solo.m[k] = v
+	}
+	solo.Unlock()
+	o := Execute(t, &req.Cfg, true)
+	ob, _ := json.Marshal(o)
+	return os.WriteFile(req.Out, ob, 0644)
 }
 
 // Execute runs one configuration. sim=false runs the same workload with real
